@@ -2,6 +2,7 @@ package rules
 
 import (
 	"fmt"
+	"sort"
 	"go/token"
 	"strings"
 
@@ -18,6 +19,8 @@ func runC20(c *Ctx) {
 	R := c.R
 	R.Rule("C20.R1", "every growth is guarded by an absence test of the same constant: an attribute value is extended with \" token\" only on the false edge of a token-wise presence test for that token on that same value; a synthesised attribute with constant key K is appended only if the most recent traversal of the attribute list saw no attribute with Key == K and none was appended since")
 	R.Rule("C20.R2", "every other rewrite of an attribute value is a constant, a projection of the old value (strings.Join of filtered tokens) or validURL's / the rewriter's result — never an extension")
+	R.Rule("C20.R4", "a synthesised attribute is never the sole survivor: every append of a sanitiser-made attribute (rel, target, crossorigin, sandbox) is dominated by evidence that the attribute list is non-empty after URL validation — a len(list) > 0 test, or a found-flag raised while traversing the list, on a version of the list that is not the input of the validURL filter; otherwise an element whose URL attributes were all rejected leaves pass 1 with only the synthesised attribute, which pass 2 strips (the policy does not allow it), so the element comes out bare or is dropped")
+	R.Rule("C20.R5", "synthesised attributes keep their place: on no path (per element name) are two sanitiser-made attributes with different keys both appended — if K1 is appended before K2, a policy that allows K2 but not K1 on that element keeps K2 in place on the second pass and re-appends K1 after it, so the attribute order flips")
 	R.Rule("C20.R3", "single escaping point: each token is written once, through Token.String (decided by C06.R1/R2, referenced)")
 	R.Assume(TrustGo, "idempotence of net/url normalisation and of the x/net/html decode/escape round trip is NOT decided", "the del/ins cite exception of UGCPolicy is outside the claimed clause")
 	fn := c.P.Func(load.ModPath, "(*Policy).sanitizeAttrs")
@@ -171,6 +174,13 @@ func runC20(c *Ctx) {
 		}
 	}
 	R.Role("C20.R1", "synthesised attribute appends", len(synths), 5)
+	c20Order(c, fn)
+	c20SoleSurvivor(c, fn, A, synthKeys, func() (out []c20Synth) {
+		for _, sy := range synths {
+			out = append(out, c20Synth{sy.call, sy.key})
+		}
+		return
+	}())
 
 	// query for the value extensions: presence atoms only
 	var ptrack []int
@@ -301,4 +311,276 @@ func stripIDs(s string) string {
 		sb.WriteByte(s[i])
 	}
 	return sb.String()
+}
+
+type c20Synth struct {
+	call *ssa.Call
+	key  string
+}
+
+// impliedLiterals returns the atoms f syntactically forces (atom -> polarity).
+func impliedLiterals(f *pa.F) map[int]bool {
+	switch f.Op {
+	case 'a':
+		return map[int]bool{f.Atom: true}
+	case '!':
+		if f.Kids[0].Op == 'a' {
+			return map[int]bool{f.Kids[0].Atom: false}
+		}
+		// ¬(a ∨ b) = ¬a ∧ ¬b
+		if f.Kids[0].Op == '|' {
+			out := map[int]bool{}
+			for _, k := range f.Kids[0].Kids {
+				for a, pol := range impliedLiterals(pa.Not(k)) {
+					out[a] = pol
+				}
+			}
+			return out
+		}
+	case '&':
+		out := map[int]bool{}
+		for _, k := range f.Kids {
+			for a, pol := range impliedLiterals(k) {
+				out[a] = pol
+			}
+		}
+		return out
+	case '|':
+		var out map[int]bool
+		for i, k := range f.Kids {
+			m := impliedLiterals(k)
+			if i == 0 {
+				out = m
+				continue
+			}
+			for a, pol := range out {
+				if p2, ok := m[a]; !ok || p2 != pol {
+					delete(out, a)
+				}
+			}
+		}
+		return out
+	}
+	return map[int]bool{}
+}
+
+func isAttrList(v ssa.Value) bool {
+	return v != nil && strings.HasSuffix(v.Type().String(), "[]golang.org/x/net/html.Attribute")
+}
+
+func c20SoleSurvivor(c *Ctx, fn *ssa.Function, A *pa.Analysis, synthKeys []string, synths []c20Synth) {
+	R := c.R
+	vu := c.P.Func(load.ModPath, "(*Policy).validURL")
+	var vuBlocks []*ssa.BasicBlock
+	for _, b := range fn.Blocks {
+		for _, in := range b.Instrs {
+			if cl, ok := in.(*ssa.Call); ok && vu != nil && cl.Common().StaticCallee() == vu {
+				vuBlocks = append(vuBlocks, b)
+			}
+		}
+	}
+	// a list version is "pre-validation" if its definition dominates a validURL call (the filter still lies ahead)
+	preValidation := func(x ssa.Value) bool {
+		in, ok := x.(ssa.Instruction)
+		if !ok {
+			return true // a parameter: the unfiltered input
+		}
+		for _, vb := range vuBlocks {
+			if in.Block().Dominates(vb) {
+				return true
+			}
+		}
+		return false
+	}
+	loops := model.SliceRangeLoops(fn)
+	// flagList: p is a found-flag of a traversal of list X — a loop-header phi that starts false
+	flagList := func(p *ssa.Phi) ssa.Value {
+		for _, l := range loops {
+			if p.Block() != l.Header || !isAttrList(l.Over) {
+				continue
+			}
+			for i, e := range p.Edges {
+				if !l.Blocks[l.Header.Preds[i]] {
+					if k, ok := e.(*ssa.Const); !ok || k.Value == nil || k.Value.String() != "false" {
+						return nil
+					}
+				}
+			}
+			return l.Over
+		}
+		return nil
+	}
+	cnt := map[string]int{}
+	for _, sy := range synths {
+		cnt[sy.key]++
+		key := fmt.Sprintf("sole:%s#%d", sy.key, cnt[sy.key])
+		cons := fmt.Sprintf("(*Policy).sanitizeAttrs: append of a synthesised %s attribute", sy.key)
+		pos := c.P.Pos(sy.call.Pos())
+		site := sy.call.Block()
+		evidence := ""
+		var rejected []string
+		for d := site.Idom(); d != nil && evidence == ""; d = d.Idom() {
+			for k, s := range d.Succs {
+				if len(d.Succs) != 2 || d.Succs[0] == d.Succs[1] || !s.Dominates(site) || len(s.Preds) != 1 {
+					continue
+				}
+				for atom, pol := range impliedLiterals(A.EdgeCond(d, k)) {
+					at := A.Atoms[atom]
+					var x ssa.Value
+					what := ""
+					switch {
+					case at.Kind == "len0" && !pol && isAttrList(at.Resolve(at.X)):
+						x = at.Resolve(at.X)
+						what = "len(" + stripIDs(A.Sym.Of(x)) + ") > 0"
+					case at.Phi != nil && pol:
+						if l := flagList(at.Phi); l != nil {
+							x = l
+							what = "flag " + at.Phi.Comment + " raised while traversing " + stripIDs(A.Sym.Of(l))
+						}
+					}
+					if x == nil {
+						continue
+					}
+					if preValidation(x) {
+						rejected = append(rejected, what+" (but that list is still to be filtered by validURL)")
+						continue
+					}
+					evidence = what
+				}
+			}
+		}
+		if evidence != "" {
+			R.OK("C20.R4", key, cons, pos, "dominated by "+evidence)
+			continue
+		}
+		why := "nothing establishes that another attribute survives next to the synthesised one: an element whose URL attributes were all rejected is emitted with only " + sy.key + ", which a second pass strips, leaving the element bare or dropped"
+		if len(rejected) > 0 {
+			sort.Strings(rejected)
+			why += "; found only: " + strings.Join(rejected, "; ")
+		}
+		R.Fail("C20.R4", key, cons, pos, why)
+	}
+	R.Role("C20.R4", "synthesised attribute appends", len(synths), 5)
+}
+
+// c20SynthSites lists the appends of constant-key attributes in fn.
+func c20SynthSites(fn *ssa.Function) []c20Synth {
+	var out []c20Synth
+	for _, b := range fn.Blocks {
+		for _, in := range b.Instrs {
+			cl, ok := in.(*ssa.Call)
+			if !ok {
+				continue
+			}
+			if ac, _ := model.IsAppend(cl); ac == nil {
+				continue
+			}
+			al := model.LoadOfAlloc(model.AppendedValue(cl))
+			if al == nil || len(model.WholeStoresTo(al)) > 0 {
+				continue
+			}
+			ks := model.FieldStoresTo(al, "Key")
+			if len(ks) != 1 {
+				continue
+			}
+			if k, ok := constString(ks[0].Val); ok {
+				out = append(out, c20Synth{cl, k})
+			}
+		}
+	}
+	return out
+}
+
+// c20Order (C20.R5): per element name, no path appends two synthesised attributes with different keys.
+func c20Order(c *Ctx, fn *ssa.Function) {
+	R := c.R
+	// element names the function distinguishes
+	elems := map[string]bool{}
+	{
+		A := model.NewAnalysis(fn)
+		translateAll(A)
+		for _, at := range A.Atoms {
+			if at.Kind == "eq" && at.Resolve(at.X) == ssa.Value(fn.Params[1]) {
+				if k, ok := constString(at.Y); ok {
+					elems[k] = true
+				}
+			}
+		}
+	}
+	elems["\x00any-other-element"] = true
+	var names []string
+	for e := range elems {
+		names = append(names, e)
+	}
+	sort.Strings(names)
+	sites := c20SynthSites(fn)
+	type pair struct{ first, second string }
+	found := map[pair][]string{}
+	nRuns := 0
+	for _, elem := range names {
+		A := model.NewAnalysis(fn)
+		A.BindConst(fn.Params[1], elem)
+		translateAll(A)
+		keys := map[string]bool{}
+		for _, s := range sites {
+			keys[s.key] = true
+		}
+		var ks []string
+		for k := range keys {
+			ks = append(ks, k)
+		}
+		sort.Strings(ks)
+		ev := map[string]int{}
+		var track []int
+		for _, k := range ks {
+			ev[k] = A.EventVar("appended-" + k)
+			track = append(track, ev[k])
+		}
+		A.PhiFilter = func(*ssa.Phi) bool { return false }
+		q, err := A.NewQuery(track)
+		if err != nil {
+			R.Unknown("C20.R5", "query:"+elem, "(*Policy).sanitizeAttrs", "", err.Error())
+			continue
+		}
+		nRuns++
+		init := map[int]bool{}
+		for _, k := range ks {
+			init[ev[k]] = false
+		}
+		for _, s := range sites {
+			e := ev[s.key]
+			q.Hooks[s.call] = func(a uint32) []uint32 { return []uint32{q.With(a, e, true)} }
+		}
+		q.Run(fn.Blocks[0], q.InitWith(init))
+		for _, s := range sites {
+			st := q.StateAt(s.call)
+			if st == nil || pa.Empty(st) {
+				continue
+			}
+			for _, k := range ks {
+				if k == s.key {
+					continue
+				}
+				if ok, _ := q.Holds(st, pa.Not(pa.AtomF(ev[k]))); !ok {
+					p := pair{k, s.key}
+					found[p] = append(found[p], strings.TrimPrefix(elem, "\x00"))
+				}
+			}
+		}
+	}
+	R.Role("C20.R5", "element-specialised runs", nRuns, 3)
+	var ps []pair
+	for p := range found {
+		ps = append(ps, p)
+	}
+	sort.Slice(ps, func(i, j int) bool { return ps[i].first+ps[i].second < ps[j].first+ps[j].second })
+	for _, p := range ps {
+		for _, elem := range found[p] {
+			R.Fail("C20.R5", "order:"+p.first+"<"+p.second+"@"+elem, fmt.Sprintf("(*Policy).sanitizeAttrs: %s then %s appended for <%s>", p.first, p.second, elem), c.P.Pos(fn.Pos()),
+				fmt.Sprintf("for <%s> a synthesised %s and then a synthesised %s can both be appended; a policy that allows %s but not %s on <%s> emits them in the opposite order when its own output is sanitised again", elem, p.first, p.second, p.second, p.first, elem))
+		}
+	}
+	if len(ps) == 0 {
+		R.OK("C20.R5", "order", "(*Policy).sanitizeAttrs", c.P.Pos(fn.Pos()), "no path appends two synthesised attributes with different keys")
+	}
 }
